@@ -63,8 +63,26 @@ def cell_vars(n, m, tag='c'):
     return [[z3.Bool(f'{tag}_{i}_{j}') for j in range(m)] for i in range(n)]
 
 
+def truthy(i, j):
+    """the value standing for a cross at (i, j): contexts accept any cell by truthiness"""
+    return (True, 2, 3)[(i + 2 * j) % 3]
+
+
 def sym_rows(cells):
-    return [tuple(core.SymBool(c) if z3.is_expr(c) else bool(c) for c in row) for row in cells]
+    """rows handed to Context/Relation: symbolic cells, represented by truthiness in three ways (bool; int 2 or 0;
+    int 3 or 0) depending on the position; concrete crosses likewise"""
+    out = []
+    for i, row in enumerate(cells):
+        r = []
+        for j, c in enumerate(row):
+            t = truthy(i, j)
+            if z3.is_expr(c):
+                r.append(core.SymBool(c) if t is True else
+                         core.SymInt(z3.If(c, z3.BitVecVal(t, core.W), z3.BitVecVal(0, core.W))))
+            else:
+                r.append((t if c else (False if t is True else 0)))
+        out.append(tuple(r))
+    return out
 
 
 def table_from_model(model, cells):
